@@ -391,6 +391,8 @@ GROWTH_HUGE_THOROUGH = [SimpleCfg("grhuge", "vec_growth_huge_main.cpp", "c++11",
 REALLOC_DIRECT = [SimpleCfg("rd", "realloc_direct_main.cpp", "c++17"), SimpleCfg("rd", "realloc_direct_main.cpp", "c++11")]
 ALGO_QUICK = [SimpleCfg("ma", "mem_algos_main.cpp", s) for s in ("c++11", "c++14", "c++17", "c++20")]
 ALGO_THOROUGH = [SimpleCfg("ma", "mem_algos_main.cpp", s, "clang++-14") for s in ("c++11", "c++14", "c++17", "c++20")]
+# optional: relocation between different types (not defined by the standard algorithms; judged only where the tree offers it, i.e. where it compiles)
+ALGO_OPTIONAL = [SimpleCfg("mahr", "mem_algos_main.cpp", s, defs="#define VF_HETERO_RELOC 1\n") for s in ("c++14", "c++17")]
 
 
 class NestedCfg:
